@@ -138,13 +138,21 @@ def loop(ctx, P, iters):
     sim = P.view("Simulation")
     cls, fn = sim.method("simulate_until_deadlock")
 
+    # the local that carries the deadlock time: left operand of the subtraction in the times_to_deadlock comprehension
+    tname = "time_of_deadlock"
+    for x in ast.walk(fn):
+        if isinstance(x, ast.Assign) and unparse(x.targets[0]) == "self.times_to_deadlock" and isinstance(x.value, ast.DictComp) and isinstance(x.value.value, ast.BinOp) and isinstance(x.value.value.left, ast.Name):
+            tname = x.value.value.left.id
+    dname = [unparse(x.targets[0]) for x in ast.walk(fn) if isinstance(x, ast.Assign) and isinstance(x.value, ast.Call) and call_name(x.value) == "detect_deadlock" and isinstance(x.targets[0], ast.Name)]
+    NAMES["t"], NAMES["d"] = tname, (dname[0] if dname else "deadlocked")
+
     def keep(e):
         if e.kind == "guard":
             return True
         if e.kind == "call":
             return e.d["meth"] in ("event_and_return_nextnode", "detect_deadlock", "hash_state")
         if e.kind == "assign":
-            return e.d["target"] in ("self.current_time", "time_of_deadlock", "self.times_to_deadlock") or e.d["target"].startswith("self.times_dictionary[")
+            return e.d["target"] in ("self.current_time", tname, "self.times_to_deadlock") or e.d["target"].startswith("self.times_dictionary[")
         return e.kind in ("iter", "loopexit") and isinstance(e.node, ast.While)
     w = Walker(P, sim, keep=keep, track=lambda t, f: True, inline=lambda ev: False, loop_iters=iters)
     n_iter = 0
@@ -183,12 +191,15 @@ def loop(ctx, P, iters):
                 g = vn.generators[0]
                 kv = unparse(g.target)
                 okk = (unparse(g.iter) in ("self.times_dictionary.keys()", "self.times_dictionary") and unparse(vn.key) == kv
-                       and isinstance(vn.value, ast.BinOp) and isinstance(vn.value.op, ast.Sub) and unparse(vn.value.left) == "time_of_deadlock"
+                       and isinstance(vn.value, ast.BinOp) and isinstance(vn.value.op, ast.Sub) and unparse(vn.value.left) == NAMES["t"]
                        and unparse(vn.value.right) == "self.times_dictionary[%s]" % kv)
             if not okk:
                 viol("times-arithmetic", e.text, "times_to_deadlock must be {state: time_of_deadlock - first-visit time of state} for every visited state", e.where, st)
     if not n_iter:
         ctx.unrecognised("DLOOP: no loop iteration recognised in simulate_until_deadlock")
+
+
+NAMES = {"t": "time_of_deadlock", "d": "deadlocked"}
 
 
 def check_iteration(body, viol, st, ob):
@@ -198,7 +209,7 @@ def check_iteration(body, viol, st, ob):
             kinds.append({"event_and_return_nextnode": "E", "detect_deadlock": "D", "hash_state": "H"}[e.d["meth"]])
         elif e.kind == "assign":
             t = e.d["target"]
-            kinds.append("C" if t == "self.current_time" else "T" if t == "time_of_deadlock" else "W" if t.startswith("self.times_dictionary[") else "?")
+            kinds.append("C" if t == "self.current_time" else "T" if t == NAMES["t"] else "W" if t.startswith("self.times_dictionary[") else "?")
         else:
             kinds.append("g")
     seq = "".join(k for k in kinds if k != "g")
@@ -238,8 +249,8 @@ def check_iteration(body, viol, st, ob):
     if flag is None and "D" not in seq:
         viol("no-detection", seq, "detect_deadlock is neither called unconditionally nor under the unchecked_blockage flag", body[0].where, st)
     # time_of_deadlock
-    dl = facts.get(("truth", "deadlocked"))
-    ts = [e for e in body if e.kind == "assign" and e.d["target"] == "time_of_deadlock"]
+    dl = facts.get(("truth", NAMES["d"]))
+    ts = [e for e in body if e.kind == "assign" and e.d["target"] == NAMES["t"]]
     if dl is True and not ts:
         viol("deadlock-time-not-taken", seq, "deadlock detected but time_of_deadlock is not set in this iteration", body[0].where, st)
     for e in ts:
